@@ -188,14 +188,40 @@ Lemma pipe_target_ok f pp : pipe_ok f pp ->
   target_ok D b0 f (removelast (comps (pp_path pp))) (last (comps (pp_path pp)) []).
 Proof. intros (_ & _ & _ & F & _) dd i Hw Hb. left. apply (F dd i Hw Hb). Qed.
 
-Lemma recv_data_inv idx id d st acc : GInv st acc -> GInv (recv_data c idx id d st) acc.
+Definition DQ (st st' : rstate) (acc : list vitem) : Prop :=
+  GInv st' acc /\ step TNone b0 (r_fs st) (r_fs st') /\ (live st' = true -> live st = true).
+
+Lemma DQ_quiet st st' acc :
+  GInv st acc -> step TNone b0 (r_fs st) (r_fs st') -> same_core st st' ->
+  (live st' = true -> live st = true) ->
+  (forall id pp, In (id, pp) (r_pipes st') -> In (pp_path pp) (accpaths acc) /\ pipe_ok (r_fs st') pp) ->
+  DQ st st' acc.
+Proof.
+  intros G S C Hl Hp. split; [|split; auto]. apply (GInv_quiet st st' acc b0 G); auto. unfold b0. lia.
+Qed.
+
+Lemma DQ_stop st acc o : GInv st acc -> o <> Running -> DQ st (set_out st o) acc.
+Proof.
+  intros G Ho. split; [apply GInv_stop; auto|]. split.
+  - simpl. apply step_same; [apply (g_wf st acc (proj1 G))|apply (g_next st acc (proj1 G))].
+  - rewrite (live_set_out st o Ho). discriminate.
+Qed.
+
+Lemma DQ_same st acc : GInv st acc -> DQ st st acc.
+Proof. intros G. split; auto. split; auto. apply step_same; [apply (g_wf st acc (proj1 G))|apply (g_next st acc (proj1 G))]. Qed.
+
+Lemma DQ_via st st1 st' acc : r_fs st1 = r_fs st -> live st1 = live st -> DQ st1 st' acc -> DQ st st' acc.
+Proof. intros E E2 (A & B & C). split; auto. rewrite <- E, <- E2. auto. Qed.
+
+Lemma recv_data_dq idx id d st acc : GInv st acc -> DQ st (recv_data c idx id d st) acc.
 Proof.
   intros G. unfold recv_data.
-  destruct (alookup id (r_pipes st)) as [pp|] eqn:Ea; [|apply GInv_stop; [auto|discriminate]].
-  destruct (pp_closed pp); [apply GInv_stop; [auto|discriminate]|].
-  destruct (spend st) as [st1|] eqn:Es; [|apply GInv_stop; [auto|discriminate]].
+  destruct (alookup id (r_pipes st)) as [pp|] eqn:Ea; [|apply DQ_stop; [auto|discriminate]].
+  destruct (pp_closed pp); [apply DQ_stop; [auto|discriminate]|].
+  destruct (spend st) as [st1|] eqn:Es; [|apply DQ_stop; [auto|discriminate]].
   pose proof (GInv_spend st st1 acc G Es) as G1.
-  destruct (spend_core st st1 Es) as (Ef & _ & _ & Ep & _).
+  destruct (spend_core st st1 Es) as (Ef & _ & El & Ep & _).
+  apply (DQ_via st st1 _ acc Ef El).
   assert (Hin : In (id, pp) (r_pipes st1)) by (rewrite Ep; apply alookup_In; auto).
   destruct (g_pipes st1 acc (proj1 G1) id pp Hin) as [Hacc Hpo].
   pose proof (g_wf st1 acc (proj1 G1)) as W1. pose proof (g_next st1 acc (proj1 G1)) as Hb1.
@@ -207,8 +233,8 @@ Proof.
   destruct (is_nil d).
   - (* end of the file *)
     destruct (r_asyncerr st1).
-    + destruct (pp_fd pp) eqn:Efd; [|exact G1].
-      apply (GInv_quiet st1 _ acc b0 G1); try (unfold b0; lia).
+    + destruct (pp_fd pp) eqn:Efd; [|apply DQ_same; exact G1].
+      apply (DQ_quiet st1 _ acc G1).
       * simpl. apply step_same; auto.
       * repeat split.
       * auto.
@@ -237,7 +263,7 @@ Proof.
       destruct (if is_err r1 then (f1, r1) else sys_utimens c f1 (pp_path pp) (st_mtime (pp_stat pp))) as [f2 r2].
       cbn [fst] in S2.
       pose proof (step_trans D TNone b0 _ _ _ S1 S2) as S12.
-      apply (GInv_quiet st1 _ acc b0 G1); try (unfold b0; lia); simpl; auto.
+      apply (DQ_quiet st1 _ acc G1); simpl; auto.
       * repeat split.
       * intros id' pp' Hin'. apply filter_In in Hin'. destruct Hin' as [Hin' _].
         destruct (g_pipes st1 acc (proj1 G1) id' pp' Hin') as [A B]. split; auto.
@@ -263,7 +289,7 @@ Proof.
       { pose proof (reach_lt D f0 D W0 (reach_refl D f0)). unfold b0 in Hbi. lia. }
       pose proof (fd_pwrite_step D TNone b0 (r_fs st1) i (pp_off pp) d W1 Hb1 Hlt HiD Hbi) as S.
       destruct (fd_pwrite (r_fs st1) i (pp_off pp) d) as [f2 r2]. cbn [fst] in S.
-      apply (GInv_quiet st1 _ acc b0 G1); try (unfold b0; lia); simpl; auto.
+      apply (DQ_quiet st1 _ acc G1); simpl; auto.
       * repeat split.
       * intros id' pp' Hin'. apply aset_In in Hin'. destruct Hin' as [E|Hin'].
         -- inversion E; subst. split; auto.
@@ -273,11 +299,16 @@ Proof.
            pose proof (st_next _ _ _ _ _ S). lia.
         -- destruct (g_pipes st1 acc (proj1 G1) id' pp' Hin') as [A B]. split; auto.
            apply (quiet_pipe_ok b0 (r_fs st1) f2 pp' W1 S B).
-    + destruct r; try (exfalso; eapply Hr; reflexivity);
-        (apply GInv_stop; [|discriminate]);
-        (apply (GInv_quiet st1 _ acc b0 G1); try (unfold b0; lia); simpl; auto;
-         [apply step_same; auto|repeat split|apply (proj1 G1)]).
+    + assert (Gu : GInv (upd st1 (r_fs st1)) acc).
+      { apply (GInv_quiet st1 _ acc b0 G1); try (unfold b0; lia); simpl; auto;
+          [apply step_same; auto|repeat split|apply (proj1 G1)]. }
+      destruct r; try (exfalso; eapply Hr; reflexivity);
+        (split; [apply GInv_stop; [exact Gu|discriminate]|split; [simpl; apply step_same; auto|
+          intros L'; rewrite live_set_out in L'; [discriminate|discriminate]]]).
 Qed.
+
+Lemma recv_data_inv idx id d st acc : GInv st acc -> GInv (recv_data c idx id d st) acc.
+Proof. intros G. apply (recv_data_dq idx id d st acc G). Qed.
 
 
 (* ---------------- DiskWriter.Wait: mtimes of the directories the transfer made ---------------- *)
@@ -362,20 +393,20 @@ Qed.
 
 
 (* ---------------- one HandleChange call issued by the diff ---------------- *)
-Definition change_pre (st : rstate) (p : bytes) (s : stat) (acc : list vitem) : Prop :=
+Definition change_pre (kind : N) (st : rstate) (p : bytes) (s : stat) (acc : list vitem) : Prop :=
   ok_path p = true /\ clean_path p /\ safe (r_fs st) D (removelast (comps p))
   /\ (forall j t, reach (r_fs st) j -> tmpname t -> blookup t (ents (r_fs st) j) = None)
-  /\ (hardlink_branch s = true ->
+  /\ (N.eqb kind 2 = false -> hardlink_branch s = true ->
         ok_path (st_linkname s) = true /\ safe (r_fs st) D (removelast (comps (st_linkname s))))
   /\ (forall id pp, In (id, pp) (r_pipes st) -> ~ is_prefix (comps p) (comps (pp_path pp)))
-  /\ In p (accpaths acc).
+  /\ (N.eqb kind 2 = false -> In p (accpaths acc)).
 
 Definition change_post (kind : N) (p : bytes) (s : stat) (st st' : rstate) : Prop :=
   live st' = true ->
     live st = true
     /\ (forall j t, reach (r_fs st') j -> tmpname t -> blookup t (ents (r_fs st') j) = None)
     /\ (forall cs, ~ is_prefix (comps p) cs -> (forall t, tmpname t -> ~ In t cs) ->
-           safe (r_fs st) D cs -> safe (r_fs st') D cs)
+           (safe (r_fs st) D cs -> safe (r_fs st') D cs) /\ rwalk (r_fs st') D cs = rwalk (r_fs st) D cs)
     /\ (kind <> 2 -> solid s = true -> safe (r_fs st') D (comps p)).
 
 Definition same_diff (st st' : rstate) : Prop :=
@@ -407,7 +438,7 @@ Proof.
 Qed.
 
 Lemma apply_change_inv idx kind p s st acc :
-  GBase st acc -> (live st = true -> change_pre st p s acc) ->
+  GBase st acc -> (live st = true -> change_pre kind st p s acc) ->
   let st' := apply_change c idx kind p s st in
   GBase st' acc /\ same_diff st st' /\ change_post kind p s st st'.
 Proof.
@@ -431,7 +462,7 @@ Proof.
   set (pre := removelast (comps p)) in *. set (bn := last (comps p) []) in *.
   assert (Hfree' : forall dd, rwalk (r_fs st) D pre = Some dd -> blookup tmp (ents (r_fs st) dd) = None).
   { intros dd Hw. apply Hfree; auto. apply (rwalk_reach D _ pre D dd); [constructor|auto]. }
-  pose proof (dw_handle_contained D c (r_fs st) tmp kind p s Wg eq_refl Hok (tmp_ok tmp Htn) (Hcl tmp Htn)
+  pose proof (dw_handle_contained' D c (r_fs st) tmp kind p s Wg eq_refl Hok (tmp_ok tmp Htn) (Hcl tmp Htn)
                 Hsafe Hfree' Hlink) as DW.
   cbv zeta in DW. fold pre bn in DW.
   cbn [r_fs set_tmps]. rewrite Ef.
@@ -472,10 +503,10 @@ Proof.
         { apply (reach_lt D (r_fs st) j Wg). apply (rwalk_reach D (r_fs st) pre D j (reach_refl D (r_fs st)) E). }
         apply (N.lt_irrefl j). apply (N.lt_le_trans _ _ _ Hlt Hge). }
     assert (Hkept : forall cs, ~ is_prefix (comps p) cs -> (forall t, tmpname t -> ~ In t cs) ->
-                      safe (r_fs st) D cs -> safe f' D cs).
-    { intros cs H1 H2 H3. apply (proj1 (K1 cs (off_of tmp pre bn cs ltac:(rewrite <- Ecs; exact H1) (H2 tmp Htn)))). exact H3. }
+                      (safe (r_fs st) D cs -> safe f' D cs) /\ rwalk f' D cs = rwalk (r_fs st) D cs).
+    { intros cs H1 H2. apply (K1 cs (off_of tmp pre bn cs ltac:(rewrite <- Ecs; exact H1) (H2 tmp Htn))). }
     assert (Hpost : forall st', r_fs st' = f' -> live st' = true -> change_post kind p s st st').
-    { intros st' E1 E2 _. rewrite E1. repeat split; auto. }
+    { intros st' E1 E2 _. rewrite E1. split; [exact L|]. split; [exact Halive|]. split; [exact Hkept|exact Hsolidsafe]. }
     set (st4 := if newdir
                 then set_tmps (upd (set_tmps st1 (tl (r_tmps st1)) (r_dirtimes st1)) f')
                        (r_tmps (upd (set_tmps st1 (tl (r_tmps st1)) (r_dirtimes st1)) f'))
@@ -495,11 +526,12 @@ Proof.
       assert (Hk2 : kind <> 2).
       { intro E. subst kind. pose proof (dw_handle_delete_res c (r_fs st) tmp p s true newdir) as H.
         rewrite Edw in H. specialize (H eq_refl). discriminate. }
+      assert (Hacc' : In p (accpaths acc)) by (apply Hacc; apply N.eqb_neq; exact Hk2).
       destruct (blookup p (r_files st4)) as [id|] eqn:Ebl.
       * split; [|split].
         -- constructor; cbn; rewrite ?F1, ?F2, ?F3; try apply G; auto.
            ++ intros id' pp' Hin'. apply aset_In in Hin'. destruct Hin' as [E|Hin'].
-              ** injection E as E1 E2. subst id' pp'. cbn. split; auto. repeat split; cbn; auto.
+              ** injection E as E1 E2. subst id' pp'. cbn. split; [exact Hacc'|]. repeat split; cbn; auto.
                  --- intros dd' i' Hw' Hb'. fold pre in Hw'. fold bn in Hb'.
                      rewrite (proj2 (K1 pre (off_short tmp pre bn pre (le_n _)))) in Hw'.
                      rewrite Hw in Hw'. injection Hw' as <-. rewrite Hbl in Hb'. injection Hb' as <-.
@@ -698,28 +730,26 @@ Proof.
     - repeat split.
     - apply G1. }
   assert (Ecs : comps (st_path s) = removelast (comps (st_path s)) ++ [last (comps (st_path s)) []]) by (apply split_comps; auto).
-  assert (Hpre : live st2 = true -> change_pre st2 (st_path s) s (acc ++ [it])).
+  assert (Hpre : live st2 = true -> change_pre 0 st2 (st_path s) s (acc ++ [it])).
   { intros L. assert (L0 : live st = true) by exact L. destruct (A L0) as [A1 A2 A3].
     unfold change_pre. cbn [r_fs st2 st1 set_diff set_valid r_pipes].
     split; [exact Hok|]. split; [exact Hcl|]. split.
     - destruct Hparent as [l Hl]. apply In_map_ce in Hl. destruct Hl as (ds & Hin & Eds).
       rewrite <- Eds. apply (A2 ds l Hin).
     - split; [exact A1|]. split.
-      + intros Hhb. pose proof (Hlinkseen Hhb) as Hin.
+      + intros _ Hhb. pose proof (Hlinkseen Hhb) as Hin.
         destruct (In_accpaths_clean acc _ (g_acc st acc G) (g_seen st acc G _ Hin)) as [Hokl _].
         split; auto. pose proof (A3 _ Hin) as Hs. rewrite (split_comps _ Hokl) in Hs. apply safe_prefix in Hs. exact Hs.
       + split.
         * intros id pp Hin. apply (earlier_not_below acc it (pp_path pp) Hspec). apply (g_pipes st acc G id pp Hin).
-        * rewrite accpaths_app. apply in_or_app. right. left. reflexivity. }
+        * intros _. rewrite accpaths_app. apply in_or_app. right. left. reflexivity. }
   destruct (apply_change_inv idx 0 (st_path s) s st2 (acc ++ [it]) G2 Hpre) as (G3 & (F1 & F2 & F3 & _) & Hpost).
   set (st3 := apply_change c idx 0 (st_path s) s st2) in *.
   split; [|rewrite F3; reflexivity]. split; [exact G3|].
   intros L3. destruct (Hpost L3) as (L2 & P1 & P2 & P3).
   assert (L0 : live st = true) by exact L2. destruct (A L0) as [A1 A2 A3].
   assert (Hkeep : forall q, In q (accpaths acc) -> safe (r_fs st) D (comps q) -> safe (r_fs st3) D (comps q)).
-  { intros q Hq Hs. apply (P2 (comps q)); auto.
-    - apply (earlier_not_below acc it q Hspec Hq).
-    - apply (In_accpaths_clean acc q (g_acc st acc G) Hq). }
+  { intros q Hq Hs. apply (proj1 (P2 (comps q) ltac:(apply (earlier_not_below acc it q Hspec Hq)) ltac:(apply (In_accpaths_clean acc q (g_acc st acc G) Hq)))). exact Hs. }
   constructor.
   - exact P1.
   - intros ds l Hin. rewrite F1 in Hin. cbn [r_vstk st2 st1 set_diff set_valid] in Hin.
@@ -727,7 +757,7 @@ Proof.
     { apply in_map_iff. exists (ds, l). split; auto. }
     destruct (Hshape _ _ Hin') as [(Hp & l' & Hl')|(E1 & E2 & _)].
     + apply In_map_ce in Hl'. destruct Hl' as (ds' & Hin2 & Eds).
-      apply (P2 (pcomps ds)).
+      refine (proj1 (P2 (pcomps ds) _ _) _).
       * rewrite Ecs. apply is_prefix_not_longer. exact Hp.
       * intros t Ht Hint. apply (Hcl t Ht). apply removelast_In. apply (prefix_In _ _ t Hp Hint).
       * rewrite <- Eds. apply (A2 ds' l' Hin2).
